@@ -276,6 +276,11 @@ def shard(ctx):
                     exp = "PASS" if r != neg else "FAIL"
                     ctext = "let lv = %s\n    %%lv %sin v%d" % (gen.glit(s_), "not " if neg else "", k)
                     cases.append(("r%d" % len(cases), ctext, exp, s_, lst))
+                    if not any(isinstance(m, (list, dict)) for m in lst):
+                        # the same list given as its elements (`v[*]`) and through a query-bound variable: still "equals some element"
+                        cases.append(("r%d" % len(cases), "let lv = %s\n    %%lv %sin v%d[*]" % (gen.glit(s_), "not " if neg else "", k), exp, s_, lst))
+                        cases.append(("r%d" % len(cases), "let lv = %s\n    let qv = v%d[*]\n    %%lv %sin %%qv" % (gen.glit(s_), k, "not " if neg else ""), exp, s_, lst))
+                        cases.append(("r%d" % len(cases), "let lv = %s\n    %ssome %%lv in v%d[*]" % (gen.glit(s_), "not " if neg else "", k), exp, s_, lst))
         st, res, text = run_file(ctx, [(c[0], c[1]) for c in cases])
         if st is None:
             ctx.inconclusive("literal-in-list-file-error")
